@@ -97,11 +97,26 @@ func chainScenarios(tier string, seed int64) []scenario {
 		add(chain.PresetS4, F(2, 4, 6, 8), 24, 0.12, false)
 		add(chain.PresetS4, chain.AllAt(5), 20, 0.25, false)
 		add(chain.PresetS4, F(0, 1, 2, 3), 20, 0.12, true)
+		// second batch: other schedules / skip rates (same presets)
+		add(chain.PresetS1, F(2, 2, 2, 2), 14, 0.3, false)
+		add(chain.PresetS1, F(3, 4, 5, 6), 16, 0.05, false)
+		add(chain.PresetS1, F(0, 0, 2, 5), 16, 0.12, false)
+		add(chain.PresetS1, F(1, 1, 1, 2), 14, 0.2, false)
+		add(chain.PresetS2, F(0, 0, 0, 0), 14, 0.12, false)
+		add(chain.PresetS2, F(2, X, X, X), 14, 0.12, false)
+		add(chain.PresetS2, F(1, 1, 2, 6), 16, 0.05, false)
+		add(chain.PresetS3, chain.Phase0Only, 12, 0.12, false)
+		add(chain.PresetS3, F(1, 2, 3, 4), 14, 0.2, false)
+		add(chain.PresetS3, F(0, 1, 1, 5), 14, 0.12, false)
+		add(chain.PresetS4, chain.Phase0Only, 20, 0.12, false)
+		add(chain.PresetS4, F(1, 3, 5, 7), 24, 0.3, false)
+		add(chain.PresetS4, F(0, 0, 0, 4), 20, 0.05, false)
+		add(chain.PresetS4, F(4, 4, 8, 8), 24, 0.12, false)
 	} else {
 		scheds := []chain.ForkSchedule{chain.Phase0Only, F(1, 2, 3, 4), F(2, 2, 2, 2), F(1, 3, 3, 6), F(4, 6, 8, 10),
 			F(2, X, X, X), F(1, 2, X, X), F(1, 2, 4, X), F(3, 4, 5, 6), F(2, 4, 4, 7), F(0, 0, 0, 0), F(0, 1, 1, 2),
 			F(0, 0, 2, 5), F(5, 5, 6, 6), F(0, 0, 0, 3), F(1, 1, 1, 1)}
-		for rep := 0; rep < 3; rep++ {
+		for rep := 0; rep < 9; rep++ {
 			for i, p := range chain.ScaledPresets {
 				for j, s := range scheds {
 					epochs := 14 + (rep+i+j)%6
